@@ -20,7 +20,7 @@ REQUIRED = [f"ref_compared:{nn.label({'test': a, 'estim': b, 'bet': c})}" for a,
            ["equiv_compared", "inverse_checked", "entries_eq", "entries_boundary", "stratum:nondyadic_boundary_neighbourhood", "stratum:early_wins_then_zeros_to_census", "stratum:long_sample",
             "stratum:exact_hit_then_zero_then_nondyadic", "inverse_checked_with_null_mean_outside_0_u",
             "ref_compared:finite_N_given_as_a_numpy_integer", "predictability_of_the_estimator_values_probed", "ref_compared:fixed_bet_above_1_over_u",
-            "ref_compared:negative_betting_product_seen"]
+            "ref_compared:negative_betting_product_seen", "ref_compared:tuning_parameters_reassigned_after_construction"]
 ASSUMPTIONS = ["eta_j and lambda_j are taken from the real estimator/bet (their ranges are C13's business)",
                "boundary-index conventions of DESIGN.md C12: at the index where the total first exceeds N t either the "
                "product value or 0 is accepted; where mu_j is within the code's tolerances of 0 or u either the product "
@@ -157,6 +157,8 @@ def run_case(case, rec):
                         return
         exp = nnref.ref_history(cfg, x, etas=etas, lams=lams)
         rec.count(f"ref_compared:{lab}")
+        if cfg.get("kw_built"):
+            rec.count("ref_compared:tuning_parameters_reassigned_after_construction")
         if cfg.get("overbet"):
             rec.count("ref_compared:fixed_bet_above_1_over_u")
             if any(v < 0 for v in h):
